@@ -413,6 +413,22 @@ def check_worse(fx, R):
                 else:
                     return None
         return res[0] if len(res) == 1 else None
+
+    def ev_step(a, b):
+        """E-STEP fallback: the body evaluated on the two enumerator values (casts between the enum and integers erased)"""
+        from .. import mini
+        from .C20 import deep_unwrap
+        env = {f['params'][0]['name']: a, f['params'][1]['name']: b}
+        env.update({k_: v_ for k_, v_ in vals.items()})
+        env.update({Q + 'DiagnosticStatus::' + k_: v_ for k_, v_ in vals.items()})
+        env.update({'DiagnosticStatus::' + k_: v_ for k_, v_ in vals.items()})
+        try:
+            r = mini.Step(deep_unwrap).call(f['body'], env)
+        except mini.Unsupported:
+            return None
+        return int(r) if isinstance(r, (int, bool)) else None
+    ev_sym = ev
+    ev = lambda a, b: (lambda r_: r_ if r_ is not None else ev_step(a, b))(ev_sym(a, b))
     table = {}
     names = {v: k for k, v in vals.items()}
     for a in sorted(vals.values()):
@@ -422,7 +438,7 @@ def check_worse(fx, R):
             if r is None:
                 R.undecided('T3', 'worse(%s,%s)' % (names[a], names[b]), 'not evaluable')
             else:
-                R.check(r == max(a, b), 'T3', 'worse(%s,%s)' % (names[a], names[b]), 'worse(%s,%s) = %s, the more severe is %s' % (names[a], names[b], names.get(r), names[max(a, b)]),
+                R.check(r == max(a, b), 'T3', 'worse(%s,%s)' % (names[a], names[b]), 'worse(%s,%s) = %s, the more severe is %s' % (names[a], names[b], names.get(r, r), names[max(a, b)]),
                         '= %s' % names[max(a, b)], fx.rel(f['loc']), 'E-ORD')
     if all(v is not None for v in table.values()):
         V = sorted(vals.values())
